@@ -3,8 +3,36 @@
    is the one of Proofs/MatcherSpec.v. *)
 From Coq Require Import NArith List Bool Arith Lia.
 From CL Require Import Base.Sx Base.Res Base.Str Regex.Rx Regex.RxLemmas Model.Pattern Model.Matcher
-  Proofs.MatcherSpec Proofs.MatcherSound Proofs.MatcherExpand Proofs.PatternFuel.
+  Proofs.MatcherSpec Proofs.MatcherSound Proofs.MatcherExpand Proofs.MatcherComplete
+  Proofs.MatcherFinal Proofs.PatternFuel.
 Import ListNotations.
+
+(* A fully bound pattern (literals and bound variables only) expands to a path
+   that the same matcher matches, returning the bound values. *)
+Theorem C12_expand_match : forall M, simple M -> compiles M ->
+  Forall var_not_star (p_nodes (m_pat M)) -> fully_bound M ->
+  exists path d, str_of M = Ok path /\ match_ M path = Ok (Some d) /\
+    forall name rep, In (NVar name rep) (p_nodes (m_pat M)) ->
+      exists v t, lookup name (m_env M) = Some v /\ value_text v = Some t /\
+                  lookup name d = Some (Some t).
+Proof. exact expand_then_match. Qed.
+
+(* {base}/{locale}/f.ftl with base = /l10n, locale = de *)
+Example C12_expand_match_example : exists M,
+  mk_matcher (of_ascii [123;98;97;115;101;125;47;123;108;111;99;97;108;101;125;47;102;46;102;116;108])
+             [(of_ascii [108;111;99;97;108;101], of_ascii [100;101]);
+              (of_ascii [98;97;115;101], of_ascii [47;108;49;48;110])] None = Ok M /\
+  simple M /\ compiles M /\ Forall var_not_star (p_nodes (m_pat M)) /\ fully_bound M /\
+  str_of M = Ok (of_ascii [47;108;49;48;110;47;100;101;47;102;46;102;116;108]).
+Proof.
+  match goal with |- exists M, ?mk = Ok M /\ _ => destruct mk as [M|] eqn:E; [|vm_compute in E; discriminate] end.
+  exists M. vm_compute in E. inversion E; subst M. split; [reflexivity|].
+  split; [split; [vm_compute; reflexivity|split; [reflexivity|]]|].
+  { vm_compute. repeat constructor; simpl; intuition discriminate. }
+  split; [eexists; eexists; vm_compute; reflexivity|].
+  split; [repeat constructor; simpl; intros k H; inversion H|].
+  split; vm_compute; reflexivity.
+Qed.
 
 (* Every path a matcher matches starts with the matcher's prefix (whenever the
    prefix is defined: it raises for a pattern whose prefix part needs a star). *)
@@ -22,11 +50,13 @@ Proof.
 Qed.
 
 (* A double star matches nothing (its group takes no part), or a non-empty text
-   followed by its suffix: whole directories d1/.../dk/ for the suffix "/". *)
+   without newline followed by its suffix: whole directories d1/.../dk/ for the
+   suffix "/". *)
 Theorem C12_starstar_dirs : forall M path d k suffix, simple M ->
   match_ M path = Ok (Some d) -> In (NStarstar k suffix) (p_nodes (m_pat M)) ->
   lookup (star_name k) d = Some None \/
-  exists b, b <> [] /\ lookup (star_name k) d = Some (Some (b ++ suffix)).
+  exists b, b <> [] /\ has_char nl b = false /\
+            lookup (star_name k) d = Some (Some (b ++ suffix)).
 Proof.
   intros M path d k suffix HS Hm Hin. pose proof (match_kinds_ok M path d HS Hm) as Hk.
   unfold kinds_ok in Hk. rewrite Forall_forall in Hk. exact (Hk _ Hin).
